@@ -1,4 +1,3 @@
-//verif:race
 // C03 — acknowledged uploads survive graceful shutdown and committed epochs.
 //
 // Engine: persistent local store on journalled simulated media (lib/asm); every
@@ -20,6 +19,8 @@
 // set), runs one complete commit (data sync + state write) with nothing else
 // happening, "kills the process" (complete medium, nothing lost) and restarts:
 // every member of the live set must be served identically.
+//
+//verif:race
 package main
 
 import (
@@ -66,13 +67,13 @@ type obj struct {
 }
 
 type env struct {
-	c   *run.Case
-	w   *run.Worker
-	r   *gen.Rng
-	cfg asm.Config
-	s   *asm.Store
-	ctx context.Context
-	id  uint64
+	c    *run.Case
+	w    *run.Worker
+	r    *gen.Rng
+	cfg  asm.Config
+	s    *asm.Store
+	ctx  context.Context
+	id   uint64
 	objs []*obj
 }
 
@@ -131,6 +132,7 @@ func daemonCase(w *run.Worker, c *run.Case) {
 	}
 	var objs []ob
 	served := map[uint64]bool{}
+	committed := map[uint64]bool{}
 	next := uint64(c.Index)<<32 | uint64(w.Index)<<48
 	cycles := r.Range(2, 4)
 	for cyc := 0; cyc < cycles; cyc++ {
@@ -151,11 +153,16 @@ func daemonCase(w *run.Worker, c *run.Case) {
 			switch {
 			case strings.HasSuffix(ack, " WRONG"):
 				c.Violation("daemon.Get:wrong-bytes-after-restart", "cycle %d: %s", cyc, ack)
+			case committed[o.id] && !strings.HasSuffix(ack, " OK"):
+				c.Violation("daemon:committed-object-lost-after-kill", "cycle %d: an object that was acknowledged before an observed commit of the persistent state and was served right before SIGKILL is not served after the restart: %s (geometry %+v)", cyc, ack, g)
 			case served[o.id] && !strings.HasSuffix(ack, " OK"):
 				c.Violation("daemon:object-lost-across-graceful-restart", "cycle %d: an object that the daemon served right before its graceful shutdown is not served after the restart with the same configuration: %s (geometry %+v)", cyc, ack, g)
 			}
 			if served[o.id] {
 				w.Count("daemon_restart_objects_checked", 1)
+			}
+			if committed[o.id] {
+				w.Count("daemon_kill_objects_checked", 1)
 			}
 		}
 		// New uploads, with pauses so that epochs get committed.
@@ -178,6 +185,7 @@ func daemonCase(w *run.Worker, c *run.Case) {
 		}
 		kill := cyc < cycles-1 && r.Chance(1, 3)
 		served = map[uint64]bool{}
+		committed = map[uint64]bool{}
 		if !kill {
 			for _, o := range objs {
 				ack, _ := p.Cmd(fmt.Sprintf("GET %d %d", o.id, o.size))
@@ -193,6 +201,46 @@ func daemonCase(w *run.Worker, c *run.Case) {
 			}
 			w.Count("daemon_graceful_restarts", 1)
 		} else {
+			// Clause K: everything acknowledged before a commit that the
+			// harness OBSERVES (in the state file) and that is still served
+			// right before the process is killed must be served after the
+			// restart. Epochs are synchronised in order and at most one epoch
+			// is opened per sync round, so objects acknowledged before the
+			// state file showed next epoch N0 live in epochs <= N0+1: a state
+			// file with next epoch >= N0+2 covers them. Polling has a bounded
+			// number of rounds; not observing the commit gives no verdict.
+			acked := len(objs)
+			n0, ok := daemon.NextEpochID(dir)
+			observed := false
+			for i := 0; i < 60 && !observed; i++ {
+				next++
+				o := ob{next, r.Range(1, 16)}
+				if ack, err := p.Cmd(fmt.Sprintf("PUT %d %d", o.id, o.size)); err == nil && strings.HasSuffix(ack, " OK") {
+					objs = append(objs, o)
+				}
+				time.Sleep(time.Duration(g.EpochMillis*2) * time.Millisecond)
+				n, ok2 := daemon.NextEpochID(dir)
+				if !ok {
+					// no state file yet when the uploads were acknowledged: start counting from the first one seen
+					if ok2 {
+						n0, ok = n, true
+						acked = len(objs)
+					}
+					continue
+				}
+				observed = ok2 && n >= n0+2
+			}
+			if observed {
+				w.Count("daemon_kills_after_observed_commit", 1)
+				for _, o := range objs[:acked] {
+					ack, _ := p.Cmd(fmt.Sprintf("GET %d %d", o.id, o.size))
+					if strings.HasSuffix(ack, " OK") {
+						committed[o.id] = true
+					} else if strings.HasSuffix(ack, " WRONG") {
+						c.Violation("daemon.Get:wrong-bytes", "%s", ack)
+					}
+				}
+			}
 			p.Kill()
 			w.Count("daemon_kills", 1)
 		}
